@@ -23,7 +23,8 @@ func c22(r *sim.R) *sim.Violation {
 	w := newCWorld(r)
 	defer w.install()()
 	v4 := t.Draw(3) != 0
-	hosts := hostsV4[:4]
+	// unicast hosts, some with host parts that look like broadcast or network addresses
+	hosts := [][]byte{{10, 0, 0, 1}, {10, 0, 0, 2}, {192, 168, 1, 9}, {8, 8, 8, 8}, {10, 0, 3, 255}, {172, 16, 0, 0}, {100, 64, 255, 255}, {223, 255, 255, 254}}
 	if !v4 {
 		hosts = hostsV6[:3]
 	}
